@@ -132,7 +132,7 @@ def validate(events, work, tag):
     path = os.path.join(work, f"moves_{tag}.ndjson")
     with open(path, "w") as fh:
         for ev in events:
-            fh.write(json.dumps({k: v for k, v in ev.items() if k != "status"}) + "\n")
+            fh.write(json.dumps({k: v for k, v in ev.items() if k not in ("args", "xi", "tb")}) + "\n")
     cfg = os.path.join(work, f"moves_{tag}.cfg")
     with open(cfg, "w") as fh:
         fh.write("SPECIFICATION TSpec\nINVARIANT Report\nCHECK_DEADLOCK FALSE\n")
